@@ -39,6 +39,29 @@ theorem apply_callbacks_dispatch_then_store (k : SeqKey) : applyCallsOf orders k
       rw [if_neg h0, if_neg h1]
       decide
 
+/-- In the conversion loops of `internalState.applyPts` and `channelState.applyPts` the statement
+that skips an `affectedPts` marker is `continue` (regenerated from the AST): only the marker is
+left out of the batch handed to the handler. -/
+theorem marker_skip_is_continue :
+    Facts.C03.applyPtsSkip = 0 ∧ Facts.C03.chApplyPtsSkip = 0 ∧
+    orders.applyPtsBreak = false ∧ orders.chApplyPtsBreak = false := by decide
+
+/-- Every apply callback dispatches then stores, and skips only markers. -/
+theorem apply_callbacks_good (mk : Nat → Bool) (k : SeqKey) : GoodCfg (applyCfgOf orders mk k) := by
+  refine ⟨apply_callbacks_dispatch_then_store k, ?_⟩
+  show (if k = 0 then orders.applyPtsBreak else if k = 1 then false else orders.chApplyPtsBreak) = false
+  rw [marker_skip_is_continue.2.2.1, marker_skip_is_continue.2.2.2]
+  split
+  · rfl
+  · split <;> rfl
+
+/-- **Every non-marker update of an applied batch is handed to the handler** (and nothing else):
+for the batch `us` a box reports, the ids dispatched by the callback of any sequence are exactly
+the tags of `us` that are not markers. -/
+theorem applied_batch_dispatches_every_non_marker (mk : Nat → Bool) (k : SeqKey) (us : List Upd) (i : Nat) :
+    i ∈ batchIds (applyCfgOf orders mk k) us ↔ (∃ u ∈ us, u.tag = i) ∧ mk i = false :=
+  mem_batchIds _ (apply_callbacks_good mk k).cont us i
+
 /-- `internalState.getDifference`, branches `updates.difference` and `updates.differenceSlice`,
 as seen by the pts and by the qts sequence: dispatch, then `SetState`, then the box. -/
 theorem difference_dispatch_before_store :
@@ -75,85 +98,95 @@ theorem isCommonSeqUpdate_src : Facts.C03.isCommonSeqUpdateSrc =
 
 /-! ### The property, for every op list on a sequence -/
 
-/-- **Prefix safety.** Take any sequence `k`, any log of that sequence that tiles the positions
-above `c0 ≥ 0`, any persisted start position `lo`, and any list of ops whose pushes are log
-entries and whose difference steps are honest (`wfRun`: a difference setting position `x` carries
-every entry in `(state, x]`, an empty one has none, a too-long one reports first).  Then at every
-store event everything at or below the stored value (and above `lo`) has already been dispatched,
-unless too-long was reported before. -/
-theorem C03_prefix_safe (k : SeqKey) (log : List Entry) (c0 lo : Int) (hc0 : 0 ≤ c0)
+/-- **Prefix safety.** Take any sequence `k`, any marker predicate `mk`, any log of that
+sequence that tiles the positions above `c0 ≥ 0` (markers included: they occupy positions), any
+persisted start position `lo`, and any list of ops whose pushes are log entries (or count-0 markers)
+and whose difference steps are honest (`wfRun`).  Then at every store event every non-marker entry
+at or below the stored value (and above `lo`) has already been dispatched, unless too-long was
+reported before. -/
+theorem C03_prefix_safe (k : SeqKey) (mk : Nat → Bool) (log : List Entry) (c0 lo : Int) (hc0 : 0 ≤ c0)
     (ht : tiled c0 log = true) (ops : List SOp)
-    (hw : wfRun (applyCallsOf orders k) log { state := lo } ops = true) :
-    safe log lo [] false (srun (applyCallsOf orders k) { state := lo } ops).2 = true := by
-  have hk := apply_callbacks_dispatch_then_store k
-  rw [hk] at hw ⊢
-  exact (srun_inv log c0 lo hc0 ht ops _ _ _ (inv_init log lo) hw).1
+    (hw : wfRun (applyCfgOf orders mk k) log { state := lo } ops = true) :
+    safe log mk lo [] false (srun (applyCfgOf orders mk k) { state := lo } ops).2 = true :=
+  (srun_inv log (applyCfgOf orders mk k) (apply_callbacks_good mk k) c0 lo hc0 ht ops _ _ _
+    (inv_init log mk lo) hw).1
 
 /-- … hence at every crash point (any prefix `pre` of the events) the persisted value
 `lastStore lo pre` is covered by what was dispatched in `pre`, or too-long was reported in `pre`. -/
-theorem C03_crash_point_covered (k : SeqKey) (log : List Entry) (c0 lo : Int) (hc0 : 0 ≤ c0)
+theorem C03_crash_point_covered (k : SeqKey) (mk : Nat → Bool) (log : List Entry) (c0 lo : Int) (hc0 : 0 ≤ c0)
     (ht : tiled c0 log = true) (ops : List SOp)
-    (hw : wfRun (applyCallsOf orders k) log { state := lo } ops = true)
-    (pre post : List SEv) (hp : (srun (applyCallsOf orders k) { state := lo } ops).2 = pre ++ post) :
-    hasTooLong pre = true ∨ covered log lo (lastStore lo pre) (dispatchedIds pre) = true := by
-  have hs := C03_prefix_safe k log c0 lo hc0 ht ops hw
+    (hw : wfRun (applyCfgOf orders mk k) log { state := lo } ops = true)
+    (pre post : List SEv) (hp : (srun (applyCfgOf orders mk k) { state := lo } ops).2 = pre ++ post) :
+    hasTooLong pre = true ∨ covered log mk lo (lastStore lo pre) (dispatchedIds pre) = true := by
+  have hs := C03_prefix_safe k mk log c0 lo hc0 ht ops hw
   rw [hp] at hs
-  have h0 : (false = true) ∨ covered log lo lo [] = true :=
-    Or.inr ((covered_iff log lo lo []).2 (fun e _ h1 h2 => by omega))
-  rcases safe_lastStore log lo pre [] false lo (safe_prefix _ _ _ _ _ _ hs) h0 with h | h
+  have h0 : (false = true) ∨ covered log mk lo lo [] = true :=
+    Or.inr ((covered_iff log mk lo lo []).2 (fun e _ h1 h2 => by omega))
+  rcases safe_lastStore log mk lo pre [] false lo (safe_prefix _ _ _ _ _ _ _ hs) h0 with h | h
   · left; rw [accTl_eq] at h; simpa using h
   · right
-    exact covered_mono log lo _ _ _ (fun i hi => by
+    exact covered_mono log mk lo _ _ _ (fun i hi => by
       rcases (mem_accD pre [] i).1 hi with h' | h'
       · exact h'
       · simp at h') h
 
 /-- **Restart.** Crash at any event boundary of a well-formed first run; restart from what was
 persisted then (`v`); let the second run be well-formed and end at or above every log position
-(recovery).  Then every log entry above the original start was dispatched before the crash or
-after the restart, or too-long was reported in one of the two runs. -/
-theorem C03_restart_complete (k : SeqKey) (log : List Entry) (c0 lo : Int) (hc0 : 0 ≤ c0)
+(recovery).  Then every non-marker log entry above the original start was dispatched before the
+crash or after the restart, or too-long was reported in one of the two runs. -/
+theorem C03_restart_complete (k : SeqKey) (mk : Nat → Bool) (log : List Entry) (c0 lo : Int) (hc0 : 0 ≤ c0)
     (ht : tiled c0 log = true) (ops1 ops2 : List SOp)
-    (hw1 : wfRun (applyCallsOf orders k) log { state := lo } ops1 = true)
-    (pre post : List SEv) (hp : (srun (applyCallsOf orders k) { state := lo } ops1).2 = pre ++ post)
-    (hw2 : wfRun (applyCallsOf orders k) log { state := lastStore lo pre } ops2 = true)
-    (hrec : ∀ e ∈ log, e.pos ≤ (srun (applyCallsOf orders k) { state := lastStore lo pre } ops2).1.state) :
-    let evs2 := (srun (applyCallsOf orders k) { state := lastStore lo pre } ops2).2
+    (hw1 : wfRun (applyCfgOf orders mk k) log { state := lo } ops1 = true)
+    (pre post : List SEv) (hp : (srun (applyCfgOf orders mk k) { state := lo } ops1).2 = pre ++ post)
+    (hw2 : wfRun (applyCfgOf orders mk k) log { state := lastStore lo pre } ops2 = true)
+    (hrec : ∀ e ∈ log, e.pos ≤ (srun (applyCfgOf orders mk k) { state := lastStore lo pre } ops2).1.state) :
+    let evs2 := (srun (applyCfgOf orders mk k) { state := lastStore lo pre } ops2).2
     hasTooLong pre = true ∨ hasTooLong evs2 = true ∨
-      ∀ e ∈ log, lo < e.pos → e.id ∈ dispatchedIds pre ∨ e.id ∈ dispatchedIds evs2 := by
+      ∀ e ∈ log, lo < e.pos → mk e.id = true ∨ e.id ∈ dispatchedIds pre ∨ e.id ∈ dispatchedIds evs2 := by
   intro evs2
-  have hk := apply_callbacks_dispatch_then_store k
-  rcases C03_crash_point_covered k log c0 lo hc0 ht ops1 hw1 pre post hp with h1 | h1
+  rcases C03_crash_point_covered k mk log c0 lo hc0 ht ops1 hw1 pre post hp with h1 | h1
   · exact Or.inl h1
-  · have hinv := (srun_inv log c0 (lastStore lo pre) hc0 ht ops2 _ _ _ (inv_init log _) (by rw [← hk]; exact hw2)).2
-    rw [← hk] at hinv
+  · have hinv := (srun_inv log (applyCfgOf orders mk k) (apply_callbacks_good mk k) c0 (lastStore lo pre) hc0 ht
+      ops2 _ _ _ (inv_init log mk _) hw2).2
     rcases hinv.cov with h2 | h2
     · right; left
       rw [accTl_eq] at h2; simpa using h2
     · right; right
       intro e he hlo
       by_cases hv : e.pos ≤ lastStore lo pre
-      · exact Or.inl ((covered_iff log lo _ _).1 h1 e he hlo hv)
-      · have := h2 e he (by omega) (hrec e he)
-        rcases (mem_accD _ [] e.id).1 this with h' | h'
-        · exact Or.inr h'
-        · simp at h'
+      · rcases (covered_iff log mk lo _ _).1 h1 e he hlo hv with h' | h'
+        · exact Or.inl h'
+        · exact Or.inr (Or.inl h')
+      · rcases h2 e he (by omega) (hrec e he) with h' | h'
+        · exact Or.inl h'
+        · rcases (mem_accD _ [] e.id).1 h' with h'' | h''
+          · exact Or.inr (Or.inr h'')
+          · simp at h''
 
 /-! ### The defects this property had (kept as theorems about the pre-repair orders) -/
 
 /-- D12: with `SetPts` before the callback (the pre-repair order), the store of 11 happens while
 message 1 at position 11 is undelivered and nothing has been reported. -/
 theorem D12_store_before_callback_counterexample :
-    safe [⟨1, .msg, 0, 11, 1⟩] 10 [] false (callEvs 11 [] [.store, .setBox, .cb]) = false := by decide
+    safe [⟨1, .msg, 0, 11, 1⟩] (fun _ => false) 10 [] false (callEvs 11 [] [.store, .setBox, .cb]) = false := by decide
 
 /-- D11: with own-sequence other-updates re-routed through the gap check (pre-repair), local pts
 10, a difference carrying message 1 @11 and delete 2 @12: the delete is parked, the state is set to
 12, and the store of 12 covers the undelivered delete. -/
 theorem D11_rerouted_other_update_counterexample :
     let log : List Entry := [⟨1, .msg, 0, 11, 1⟩, ⟨2, .other, 0, 12, 1⟩]
-    safe log 10 [] false
-      (srun [.dispatch, .store] { state := 10 }
+    safe log (fun _ => false) 10 [] false
+      (srun ⟨[.dispatch, .store], false, fun _ => false⟩ { state := 10 }
         [.clear, .push ⟨2, .other, 0, 12, 1⟩, .seq diffShape 12 [⟨1, .msg, 0, 11, 1⟩]]).2 = false := by decide
+
+/-- With `break` instead of `continue` in the marker skip: channel at 5, affected result 1 covering
+position 6 is overtaken by messages 2 @7 and 3 @8; when it arrives the batch is [marker, 2, 3],
+nothing is dispatched, and 8 is persisted. -/
+theorem marker_break_counterexample :
+    let log : List Entry := [⟨1, .chaff, 5, 6, 1⟩, ⟨2, .chmsg, 5, 7, 1⟩, ⟨3, .chmsg, 5, 8, 1⟩]
+    (srun ⟨[.dispatch, .store], true, fun i => i == 1⟩ { state := 5 }
+        [.push ⟨2, .chmsg, 5, 7, 1⟩, .push ⟨3, .chmsg, 5, 8, 1⟩, .push ⟨1, .chaff, 5, 6, 1⟩]).2 = [.store 8] ∧
+    safe log (fun i => i == 1) 5 [] false [.store 8] = false := by decide
 
 /-! ### Non-vacuity -/
 
@@ -164,9 +197,15 @@ def exOps : List SOp :=
    .seq diffShape 15 [⟨3, .msg, 0, 14, 1⟩, ⟨4, .msg, 0, 15, 1⟩]]
 
 example : tiled 10 exLog = true := by decide
-example : wfRun [.dispatch, .store] exLog { state := 10 } exOps = true := by decide
-example : (srun [.dispatch, .store] { state := 10 } exOps).2 =
+def exCfg : ACfg := ⟨[.dispatch, .store], false, fun _ => false⟩
+example : wfRun exCfg exLog { state := 10 } exOps = true := by decide
+example : (srun exCfg { state := 10 } exOps).2 =
     [.dispatch [1, 2], .store 13, .dispatch [3, 4], .store 15] := by decide
+
+/-- With a marker: affected result 1 covers (10,12], message 2 @13 overtakes it; the marker closes
+the hole and only the message is dispatched, then 13 is persisted. -/
+example : (srun ⟨[.dispatch, .store], false, fun i => i == 1⟩ { state := 10 }
+    [.push ⟨2, .msg, 0, 13, 1⟩, .push ⟨1, .aff, 0, 12, 2⟩]).2 = [.dispatch [2], .store 13] := by decide
 
 /-! ### The whole manager model on the D12 history -/
 
